@@ -68,8 +68,8 @@ func checkC18(c *Ctx) {
 	c18model(c, "C18.R7")
 	c.Floor("C18.R7", 16)
 	c.Floor("C18.R6", 2)
-	c.Floor("C18.R1", 8)
-	c.Floor("C18.R2", 5)
+	c.Floor("C18.R1", 3)
+	c.Floor("C18.R2", 2)
 	c.Floor("C18.R3", 2)
 	c.Floor("C18.R4", 1)
 }
